@@ -50,7 +50,8 @@ class Reporter:
             rec = {"property": self.pid, "key": key, "kind": kind, "what": what, "case": case}
             if (self.pid, key) in self.known:
                 known += 1
-                print(f"KNOWN-FINDING: property={self.pid} {key} :: {rec['what']}", flush=True)
+                one_line = " ".join(str(rec['what']).split())[:400]
+                print(f"KNOWN-FINDING: property={self.pid} {key} :: {one_line}", flush=True)
                 continue
             new += 1
             d = os.path.join(common.VERIF, "replays", self.pid)
@@ -59,6 +60,6 @@ class Reporter:
             path = os.path.join(d, h + ".json")
             with open(path, "w") as f:
                 json.dump(rec, f, indent=1, default=str)
-            print(f"  violation key={key}\n    {rec['what']}", flush=True)
+            print(f"  violation key={key}\n    {' '.join(str(rec['what']).split())[:1500]}", flush=True)
             print(f"VIOLATION property={self.pid} replay={path}", flush=True)
         return new, known
